@@ -155,6 +155,22 @@ class simplify_chained_calls(FuncADLNodeTransformer):
             reserve_arg_names(node)
         return super().visit(node)
 
+    def visit_Lambda(self, node: ast.Lambda):
+        """The arguments of a lambda hide anything of the same name that is being substituted,
+        and they must not capture a name that is free in an expression that is being substituted
+        into the body of the lambda (they are renamed if they would)."""
+        in_flight = set()
+        for frame in self._arg_stack._arg_transformer:
+            for value in frame.values():
+                in_flight.update(n.id for n in ast.walk(value) if isinstance(n, ast.Name))
+        if any(a.arg in in_flight for a in node.args.args):
+            node = make_args_unique(node)
+
+        with stack_frame(self._arg_stack):
+            for a in node.args.args:
+                self._arg_stack.define_name(a.arg, ast.Name(a.arg, ast.Load()))
+            return self.generic_visit(node)
+
     def visit_Select_of_Select(self, parent: ast.Call, selection: ast.Lambda):
         r"""
         seq.Select(x: f(x)).Select(y: g(y))
